@@ -66,7 +66,9 @@ struct Judge {
 		++utilValidated;
 		const long double tol = best * 8.0L * 5.9604645e-8L; // 4 ulp of float at the maximum
 		if (u[pick] < best - tol) { std::snprintf(buf, sizeof buf, "utilize on region %d picked sub-state %d with utility %.9Lg although sub-state utility %.9Lg is available", s, sub(s, pick), u[pick], best); fail(buf); }
-		for (int i = 0; i < pick; ++i) if (u[i] >= u[pick] && u[i] >= best - tol && u[i] == u[pick]) { std::snprintf(buf, sizeof buf, "utilize on region %d picked sub-state %d although the earlier sub-state %d has exactly the same utility %.9Lg (first wins on ties)", s, sub(s, pick), sub(s, i), u[i]); fail(buf); }
+		// first wins on exact ties - judged for plain states only: the value of a region candidate is a product over its sub-tree that the library
+		// rounds in single precision, so two region candidates can be equal here (extended precision) and different there
+		for (int i = 0; i < pick; ++i) if (node(sub(s, i)).kind == LEAF && node(sub(s, pick)).kind == LEAF && u[i] >= u[pick] && u[i] >= best - tol && u[i] == u[pick]) { std::snprintf(buf, sizeof buf, "utilize on region %d picked sub-state %d although the earlier sub-state %d has exactly the same utility %.9Lg (first wins on ties)", s, sub(s, pick), sub(s, i), u[i]); fail(buf); }
 		for (int i = 0; i < pick; ++i) if (u[i] > u[pick] + tol) { std::snprintf(buf, sizeof buf, "utilize on region %d picked sub-state %d (%.9Lg) over the earlier sub-state %d (%.9Lg)", s, sub(s, pick), u[pick], sub(s, i), u[i]); fail(buf); }
 		int positive = 0; for (int i = 0; i < nd.nsubs; ++i) if (u[i] > 0) for (int j = 0; j < i; ++j) if (u[j] > 0 && u[j] != u[i]) positive = 1;
 		if (positive) distinctPositive = true;
